@@ -17,7 +17,8 @@ bool is_marker(const string &k) { return k.size() > 2 && k[0] == '\0' && k[1] ==
 
 struct Mutation { string file; int fclass; size_t off; int kind; int bit; const char *region; };
 // kind: 0 bit flip, 1 set 0x00, 2 set 0xFF, 3 truncate at off, 4 zero 512-byte sector containing off
-static const char *kind_name[] = {"bit-flip", "byte=0x00", "byte=0xFF", "truncate", "zero-sector"};
+// kind 5: zeros from off to the end of its 32 KiB block (consecutive zeroed sectors; logs only)
+static const char *kind_name[] = {"bit-flip", "byte=0x00", "byte=0xFF", "truncate", "zero-sector", "zero-to-block-end"};
 
 bool apply_mutation(string *data, const Mutation &m) {
   if (m.off >= data->size() && m.kind != 3) return false;
@@ -26,6 +27,7 @@ bool apply_mutation(string *data, const Mutation &m) {
     case 1: if ((*data)[m.off] == 0) return false; (*data)[m.off] = 0; return true;
     case 2: if ((unsigned char)(*data)[m.off] == 0xFF) return false; (*data)[m.off] = (char)0xFF; return true;
     case 3: if (m.off >= data->size()) return false; data->resize(m.off); return true;
+    case 5: { size_t e = std::min((m.off / 32768 + 1) * 32768, data->size()); bool ch = false; for (size_t i = m.off; i < e; i++) if ((*data)[i]) { (*data)[i] = 0; ch = true; } return ch; }
     case 4: { size_t s = m.off - m.off % 512, e = std::min(s + 512, data->size()); bool ch = false; for (size_t i = s; i < e; i++) if ((*data)[i]) { (*data)[i] = 0; ch = true; } return ch; }
   }
   return false;
@@ -45,14 +47,16 @@ struct World {
 void judge_image(World &W, const string &dir, const Mutation &m) {
   char where[300];
   snprintf(where, sizeof where, "%s of %s (%s region) at offset %zu%s", kind_name[m.kind], m.file.c_str(), m.region, m.off, m.kind == 0 ? (" bit " + std::to_string(m.bit)).c_str() : "");
-  Config c = W.p.cfg; c.paranoid = 1;
+  bool meta_damage = m.fclass != simfs::FC_TABLE;
+  // table damage is judged with paranoid_checks on (as the property says); the sentence about log/MANIFEST damage is
+  // not restricted to that mode, so those images are opened both ways (alternating)
+  Config c = W.p.cfg; c.paranoid = meta_damage ? (int)(mix64(m.off, (uint64_t)m.kind * 977 + (uint64_t)m.bit) & 1) : 1;
   DbOptions opt; opt.set(c, false);
   ldb_t *db = nullptr;
   int rc = ldb_open(dir.c_str(), &opt.o, &db);
   count("mutations");
   probe((string("damage:") + simfs::fclass_name[m.fclass] + ":" + kind_name[m.kind]).c_str());
   if (rc != LDB_OK) { probe("outcome:open_error"); return; } // an error report: always acceptable
-  bool meta_damage = m.fclass != simfs::FC_TABLE;
   if (meta_damage) {
     // log / MANIFEST / CURRENT: records may be lost, but never a value that was not written or a partially applied batch
     std::vector<std::pair<string, string>> rows;
@@ -65,7 +69,7 @@ void judge_image(World &W, const string &dir, const Mutation &m) {
       if (want != got) {
         string why = "contents are not the fold of whole batches";
         for (auto &kv : got) { auto e = W.ever.find(kv.first); if (e == W.ever.end() || !e->second.count(kv.second)) { why = "key " + printable(kv.first) + " holds a value that was never written: " + printable(kv.second); break; } }
-        violation("C11", "meta_damage_wrong_contents", "%s: open succeeds and %s (%zu keys, fold of surviving batches has %zu)", where, why.c_str(), got.size(), want.size());
+        violation("C11", "meta_damage_wrong_contents", "%s: open (paranoid_checks=%d) succeeds and %s (%zu keys, fold of surviving batches has %zu)", where, c.paranoid, why.c_str(), got.size(), want.size());
       }
       probe("outcome:opened_subset");
     } else probe("outcome:scan_error");
@@ -134,6 +138,13 @@ Plan gen_corrupt(uint64_t seed, const string &prop) {
       for (int q = 0; q < n; q++) { Upd u; char kb[32]; snprintf(kb, sizeof kb, "key%03d", (int)r.below(nkeys)); u.key = kb; u.del = r.chance(0.15); if (!u.del) { u.tag = tag++; u.fill = (int)r.below(2); u.len = r.chance(0.85) ? (uint32_t)r.range(20, 700) : (uint32_t)r.range(1500, 5000); } o.ups.push_back(u); }
     } else if (c < 88) o.kind = O_FLUSH;
     else { o.kind = O_COMPACT_RANGE; o.a = (int)r.below(3); }
+    p.ops.push_back(o);
+  }
+  if (r.chance(0.4)) { // a final unflushed batch whose log record spans several 32 KiB blocks
+    Op o; o.kind = O_WRITE;
+    Upd m; m.key = marker_key(nm++); m.tag = tag++; m.len = 8; o.ups.push_back(m);
+    int n = (int)r.range(30, 90);
+    for (int q = 0; q < n; q++) { Upd u; char kb[32]; snprintf(kb, sizeof kb, "key%03d", (int)r.below(nkeys + 20)); u.key = kb; u.tag = tag++; u.fill = 1; u.len = (uint32_t)r.range(800, 2500); o.ups.push_back(u); }
     p.ops.push_back(o);
   }
   p.seti("max_mut", g_thorough ? 6000 : 450);
@@ -226,13 +237,20 @@ void exec_corrupt(const Plan &p, RunOut *out) {
           size_t n = data.size();
           for (size_t o = 0; o < std::min<size_t>(n, 7); o++) add_pos(name, fc, o, reg, n);
           for (int s = 0; s < (dense ? 80 : 20) && n > 0; s++) add_pos(name, fc, (size_t)r.below(n), reg, n);
+          // zeros from a physical fragment header to the end of its block
+          std::vector<size_t> phys;
+          for (size_t q = 0; q + 7 <= n;) { size_t rem = 32768 - q % 32768; if (rem < 7) { q += rem; continue; } phys.push_back(q); q += 7 + ((unsigned char)data[q + 4] | ((size_t)(unsigned char)data[q + 5] << 8)); }
+          for (int s = 0; s < (dense ? 24 : 6) && !phys.empty(); s++) muts.push_back({name, fc, phys[r.below(phys.size())], 5, 0, reg});
+          for (size_t q : phys) if (q % 32768 == 0 && q > 0) muts.push_back({name, fc, q, 5, 0, reg}); // a whole block (fragment of a multi-block record) reads back as zeros
         } else if (fc == simfs::FC_CURRENT) {
           for (size_t o = 0; o < data.size(); o++) add_pos(name, fc, o, "current", data.size());
         }
       }
       size_t maxm = (size_t)p.geti("max_mut", 450);
-      if (muts.size() > maxm) { // keep a uniform subsample
-        for (size_t i = 0; i < maxm; i++) std::swap(muts[i], muts[i + (size_t)r.below(muts.size() - i)]);
+      std::stable_partition(muts.begin(), muts.end(), [](const Mutation &x) { return x.kind == 5; });
+      size_t keep = 0; while (keep < muts.size() && muts[keep].kind == 5) keep++;
+      if (muts.size() > maxm) { // keep a uniform subsample (block-level damage is always kept)
+        for (size_t i = keep; i < maxm; i++) std::swap(muts[i], muts[i + (size_t)r.below(muts.size() - i)]);
         muts.resize(maxm);
       }
     }
